@@ -44,6 +44,7 @@ structure XR where
   fin : Bool             -- has finalizers
   deleting : Bool
   status : Bool          -- has a status
+  gen : Nat              -- status.observed: written by the XR controller (environment) only
   deriving DecidableEq, Repr
 
 /-- ghost events -/
@@ -62,6 +63,8 @@ structure St where
   /-- ghost: every version of the claim ever stored, newest first -/
   hist : List Claim
   xrs : Name → Option XR
+  /-- ghost: every content XR `n` ever had (`none` = absent), newest first -/
+  xhist : Name → List (Option XR)
   nextRv : Nat
   /-- ghost: newest first -/
   trace : List Ev
@@ -73,7 +76,10 @@ inductive Err where
 inductive Req where
   /-- cached read of the claim: `none` = the stored version, `some i` = the i-th newest version ever stored -/
   | getClaim (pick : Option Nat)
-  | getXR (n : Name)
+  /-- cached read of an XR: `none` = the stored state; `some f` = the older state of the name that `f`
+  selects from the list of all older states (newest first; `none` = absent) — the stored state if `f`
+  selects nothing or something that never was a state of the name -/
+  | getXR (n : Name) (sel : Option (List (Option XR) → Option (Option XR)))
   /-- client.Update(claim): carries the resourceVersion of the in-memory copy -/
   | updClaim (c : Claim)
   /-- client.Status().Update(claim) -/
@@ -88,7 +94,6 @@ inductive Req where
   | patchXR (n : Name) (rv : Option Nat)
   /-- the server-side syncer's forced apply: creates the XR or (re)binds it -/
   | applyXR (n : Name)
-  deriving Repr
 
 inductive Resp where
   | claim (c : Claim)
@@ -98,7 +103,7 @@ inductive Resp where
   deriving Repr
 
 def Req.isWrite : Req → Bool
-  | .getClaim _ | .getXR _ => false
+  | .getClaim _ | .getXR _ _ => false
   | _ => true
 
 /-! ### the API server -/
@@ -112,10 +117,13 @@ def pushClaim (s : St) (c : Claim) : St × Claim :=
 
 def putXR (s : St) (n : Name) (x : XR) : St × XR :=
   let x' := { x with rv := s.nextRv }
-  ({ s with xrs := fun m => if m = n then some x' else s.xrs m, nextRv := s.nextRv + 1 }, x')
+  ({ s with xrs := fun m => if m = n then some x' else s.xrs m,
+            xhist := fun m => if m = n then some x' :: s.xhist m else s.xhist m,
+            nextRv := s.nextRv + 1 }, x')
 
 def setXR (s : St) (n : Name) (x : Option XR) : St :=
-  { s with xrs := fun m => if m = n then x else s.xrs m }
+  { s with xrs := fun m => if m = n then x else s.xrs m,
+           xhist := fun m => if m = n then x :: s.xhist m else s.xhist m }
 
 def emit (s : St) (e : Ev) : St := { s with trace := e :: s.trace }
 
@@ -127,7 +135,7 @@ def ackOf (c : Claim) : List Ev :=
 
 def XR.foreign (x : XR) : Bool := x.cref == some .other
 
-def newXR : XR := ⟨0, some .self, true, false, false, false⟩
+def newXR : XR := ⟨0, some .self, true, false, false, false, 0⟩
 
 def bindXR (x : XR) : XR := { x with cref := some .self, labeled := true }
 
@@ -139,8 +147,10 @@ def exec (s : St) : Req → St × Resp
       match s.claim with
       | some c => (s, .claim c)
       | none => (s, .err .notFound)
-  | .getXR n =>
-    match s.xrs n with
+  | .getXR n sel =>
+    match (match sel.bind (fun f => f ((s.xhist n).drop 1)) with
+           | some ox => if ox ∈ (s.xhist n).drop 1 then ox else s.xrs n
+           | none => s.xrs n) with
     | some x => (s, .xr x)
     | none => (s, .err .notFound)
   | .updClaim c =>
@@ -223,6 +233,9 @@ structure Cfg where
   ssa : Bool
   /-- which version the cache serves for the claim -/
   pick : Option Nat
+  /-- which state the cache serves for each XR read of the reconcile (0 = the Get in Reconcile,
+  1 = the Get inside the client-side Apply, 2.. = the availability Gets of the name generator) -/
+  xpick : Nat → Option (List (Option XR) → Option (Option XR))
   /-- name oracle: the names the generator draws, in order -/
   cands : List Name
   /-- managed-fields oracle: `none` = Upgrade issues no patch, `some valid` = it issues one -/
@@ -240,13 +253,13 @@ def failWith (cm : Claim) : Err → P
   | _ => statusThen cm .requeue
 
 /-- names.nameGenerator.GenerateName: draw a name, Get it, NotFound = available; at most `fuel` tries -/
-def genName : Nat → List Name → (Option Name → P) → P
-  | 0, _, k => k none
-  | _ + 1, [], k => k none
-  | t + 1, c :: cs, k =>
-    .call (.getXR c) fun
+def genName (xpick : Nat → Option (List (Option XR) → Option (Option XR))) : Nat → Nat → List Name → (Option Name → P) → P
+  | 0, _, _, k => k none
+  | _ + 1, _, [], k => k none
+  | t + 1, j, c :: cs, k =>
+    .call (.getXR c (xpick j)) fun
       | .err .notFound => k (some c)
-      | .xr _ => genName t cs k
+      | .xr _ => genName xpick t (j + 1) cs k
       | _ => k none
 
 def finish (cm : Claim) : P := statusThen cm .ok
@@ -274,7 +287,7 @@ def ssaBind (cm : Claim) (n : Name) : P :=
 def syncSSA (cfg : Cfg) (cm : Claim) : P :=
   match cm.ref with
   | some n => ssaBind cm n
-  | none => genName 10 cfg.cands fun
+  | none => genName cfg.xpick 10 2 cfg.cands fun
       | some n => ssaBind cm n
       | none => statusThen cm .requeue
 
@@ -298,8 +311,8 @@ def csaNoop (xr : Option XR) (cur : XR) : Bool :=
   | none => false
 
 /-- `s.client.Apply(ctx, xr, AllowUpdateIf(!cmp.Equal))` = APIPatchingApplicator.Apply -/
-def csaApply (xr : Option XR) (cm1 : Claim) (n : Name) : P :=
-  .call (.getXR n) fun
+def csaApply (cfg : Cfg) (xr : Option XR) (cm1 : Claim) (n : Name) : P :=
+  .call (.getXR n (cfg.xpick 1)) fun
     | .err .notFound =>
       .call (.createXR n xr.isSome) fun
         | .xr _ => csaPost cm1
@@ -316,18 +329,18 @@ def csaApply (xr : Option XR) (cm1 : Claim) (n : Name) : P :=
     | _ => .ret .err
 
 /-- the client-side syncer's Update(claim) with a freshly generated name, then Apply -/
-def csaBindNew (xr : Option XR) (cm : Claim) (n : Name) : P :=
+def csaBindNew (cfg : Cfg) (xr : Option XR) (cm : Claim) (n : Name) : P :=
   .call (.updClaim { cm with ref := some n }) fun
-    | .claim cm1 => csaApply xr cm1 n
+    | .claim cm1 => csaApply cfg xr cm1 n
     | .err e => failWith cm e
     | _ => .ret .err
 
 /-- ClientSideCompositeSyncer.Sync, then the tail of Reconcile -/
 def syncCSA (cfg : Cfg) (cm : Claim) (xr : Option XR) : P :=
   match cm.ref with
-  | some n => csaApply xr cm n
-  | none => genName 10 cfg.cands fun
-      | some n => csaBindNew xr cm n
+  | some n => csaApply cfg xr cm n
+  | none => genName cfg.xpick 10 2 cfg.cands fun
+      | some n => csaBindNew cfg xr cm n
       | none => statusThen cm .requeue
 
 /-- RemoveFinalizer (Update, NotFound ignored), then the final status update -/
@@ -389,7 +402,7 @@ def checked (cfg : Cfg) (cm : Claim) (xr : Option (Name × XR)) : P :=
 def withClaim (cfg : Cfg) (cm : Claim) : P :=
   match cm.ref with
   | some n =>
-    .call (.getXR n) fun
+    .call (.getXR n (cfg.xpick 0)) fun
       | .xr x => checked cfg cm (some (n, x))
       | .err .notFound => checked cfg cm none
       | .err _ => statusThen cm .requeue
@@ -455,15 +468,20 @@ inductive Env : St → St → Prop where
 
 /-- the scripted environment actions of the correspondence harness -/
 inductive EnvAct where
-  | xrTouch (n : Name) | xrRemove (n : Name) | xrDelete (n : Name) | claimDelete | claimTouch
+  /-- the XR controller adds its finalizer and writes a status (`status.observed = g`) -/
+  | xrTouch (n : Name) (g : Nat)
+  | xrRemove (n : Name) | xrDelete (n : Name) | claimDelete | claimTouch
   deriving Repr
 
 def applyEnv (s : St) : EnvAct → St
-  | .xrTouch n =>
+  | .xrTouch n g =>
     match s.xrs n with
-    | some x => (putXR s n { x with fin := true, status := true }).1
+    | some x => (putXR s n { x with fin := true, status := true, gen := g }).1
     | none => s
-  | .xrRemove n => setXR s n none
+  | .xrRemove n =>
+    match s.xrs n with
+    | some _ => setXR s n none
+    | none => s
   | .xrDelete n =>
     match s.xrs n with
     | some x =>
@@ -514,7 +532,6 @@ structure CallRec where
   outcome : Outcome
   /-- reply seen by the controller; for `crashAfter` the reply that was lost -/
   resp : Option Resp
-  deriving Repr
 
 /-- Run one reconcile under a fault plan, applying the scripted environment actions
 `env k` right after call `k`. -/
